@@ -66,6 +66,9 @@ func (c C19) Run(t *tape.Tape, opt core.RunOpt) (res core.Result) {
 		// a union-typed subscription field: the events are of two Go types
 		w.UnionEvents = true
 		w.ResolverEvents = false
+	} else if t.Bool(1, 4) {
+		// a list-typed subscription field: every event is a batch
+		w.ListEvents = true
 	}
 	topics := []string{"a", "b", "c"}
 	topic := func() string {
